@@ -140,6 +140,27 @@ def gen_units(rng, family):
     return units, edges, caps
 
 
+ODD_NAMES = ["", "0", " ", "a b", "{}", "%s", "None", "False"]
+
+
+def odd_names(rng, units, caps):
+    """now and then a unit (or a capability) gets an unusual but legal name — the empty string, "0", a blank … — renamed
+    consistently, so the structure is unchanged (seeded change C05-9: a flag carrying a unit name was tested for truth)"""
+    if rng.random() < 0.07:
+        u = rng.choice(sorted(units))
+        new = rng.choice(ODD_NAMES)
+        if all(d["name"].lower() != new.lower() for d in units.values()):
+            units[u]["name"] = new
+    if rng.random() < 0.03:
+        old, new = rng.choice(caps), rng.choice(["", "0", " "])
+        if new not in caps:
+            for d in units.values():
+                d["caps"] = [new if c == old else c for c in d["caps"]]
+                d["acl"] = [new if c == old else c for c in d["acl"]]
+            caps[caps.index(old)] = new
+    return units, caps
+
+
 def py_wf(units, edges, caps):
     """generator-side pre-filter only (the Lean `wfProc` is the authority): lock condition on every maximal route"""
     succ = {u: [] for u in units}
@@ -318,13 +339,23 @@ def prog_from_json(pj):
     return [HwInstruction(list(i.get("supplied", i["srcs"])), i["dst"], i["cap"]) for i in pj]
 
 
-def run_impl(proc, prog):
-    """run the real simulator; returns the protocol-form `impl` object"""
+def run_impl(proc, prog, history=()):
+    """run the real simulator; returns the protocol-form `impl` object.  `history`: programs simulated before, on the
+    *same* HwSpec object (their outcomes — returned diagrams, stall errors, anything else — are discarded here): a
+    simulation is a function of the processor and the program, whatever the hardware object was used for before
+    (seeded changes C06-10 / C05-10: one-shot iterators and sinks cached in the HwSpec)."""
     from sim_services import HwSpec, StallError, simulate
 
+    spec = HwSpec(proc)
+    for h in history:
+        try:
+            with core.watchdog(TIMEOUT):
+                simulate(h, spec)
+        except Exception:  # noqa: BLE001 - a stall error (or whatever a changed tree raises) ends that earlier run
+            pass
     try:
         with core.watchdog(TIMEOUT):
-            tbl = simulate(prog, HwSpec(proc))
+            tbl = simulate(prog, spec)
         return {"outcome": "done", "table": table_json(tbl)}
     except StallError as e:
         return {"outcome": "stall", "table": table_json(e.processor_state)}
@@ -351,7 +382,7 @@ def evaluate(inp: dict) -> dict:
     prog = prog_from_json(inp["prog"])
     # the stored orders must be the ones the implementation uses: rebuild the protocol form from the object
     pj = proc_json(proc)
-    impl = run_impl(proc, prog)
+    impl = run_impl(proc, prog, [prog_from_json(h) for h in inp.get("history", [])])
     intended = [{"srcs": i["srcs"], "dst": i["dst"], "cap": i["cap"]} for i in inp["prog"]]
     ans = core.driver().ask({"op": "sim", "proc": pj, "prog": intended, "impl": impl})
     wf = bool(ans["wf"])
@@ -381,6 +412,10 @@ def evaluate(inp: dict) -> dict:
         tags.append("hasS")
     if st.get("mem", 0):
         tags.append("hasMem")
+    if inp.get("history"):
+        tags.append("reused-HwSpec")
+    if any(n in ODD_NAMES for n in [u["name"] for u in pj["in"] + pj["inout"]] + [f["model"]["name"] for f in pj["out"] + pj["internal"]]):
+        tags.append("odd-unit-name")
     return {"props": props, "tags": tags, "impl": impl, "model": ans["model"], "proc": pj}
 
 
@@ -448,6 +483,7 @@ def gen_input(case, tier="quick"):
     family = FAMILIES[case % len(FAMILIES)] if isinstance(case, int) else "parts"
     for _attempt in range(60):
         units, edges, caps = gen_units(rng, family)
+        units, caps = odd_names(rng, units, list(caps))
         edges = {(a, b) for (a, b) in edges if set(units[a]["caps"]) & set(units[b]["caps"])}
         if family != "illformed" and not py_wf(units, edges, caps):
             continue
@@ -465,7 +501,23 @@ def gen_input(case, tier="quick"):
     prog = gen_prog(rng, incaps, tier == "thorough", dense=(family in ("widechain", "bypass") and rng.random() < 0.8),
                     long_prog=(family == "large" or rng.random() < 0.03),
                     serial=(family == "deepchain" and rng.random() < 0.85))
-    return family, {"proc": proc_json(proc), "prog": intended_prog_json(rng, prog)}
+    inp = {"proc": proc_json(proc), "prog": intended_prog_json(rng, prog)}
+    if rng.random() < 0.15:
+        # the same HwSpec object is used for earlier simulations: the same program, other programs, a run that ends in a
+        # stall error (an instruction no input port supports)
+        hist = []
+        for _ in range(rng.randint(1, 2)):
+            r = rng.random()
+            if r < 0.3:
+                hist.append(inp["prog"])
+            elif r < 0.65:
+                hist.append(intended_prog_json(rng, gen_prog(rng, incaps, False)))
+            else:
+                h = gen_prog(rng, incaps, False)
+                h.insert(rng.randint(0, len(h)), ([], "R0", "NOSUCHCAP"))
+                hist.append(intended_prog_json(rng, h))
+        inp["history"] = hist
+    return family, inp
 
 
 def intended_prog_json(rng, prog):
@@ -511,7 +563,7 @@ def shrink(prop: str, inp: dict, still_fails) -> dict:
     while changed:
         changed = False
         for i in range(len(cur["prog"]) - 1, -1, -1):
-            cand = {"proc": cur["proc"], "prog": cur["prog"][:i] + cur["prog"][i + 1:]}
+            cand = dict(cur, prog=cur["prog"][:i] + cur["prog"][i + 1:])
             try:
                 if still_fails(cand):
                     cur = cand
